@@ -72,7 +72,7 @@ class Env:
 
 
 INTO = ["sum", "count", "first", "last", "max", "min"]
-BUILTIN_NAMES = ["len", "not", "print", "sum", "count", "first", "last", "max", "min"]
+BUILTIN_NAMES = ["len", "not", "print", "sum", "count", "first", "last", "max", "min", "-"]
 
 
 # ---- printer ---------------------------------------------------------------------------------------------
@@ -164,10 +164,22 @@ def pr(e):
         return "print(%s)" % ", ".join(pr(x) for x in e[1])
     if t == "eval":
         return "eval(%s)" % render_str(pr(e[1]))
+    if t == "chain":
+        # unparenthesised infix chain over operator variables (grouping depends on their runtime precedence)
+        return "(%s)" % " ".join([pr(e[1])] + ["%s %s" % (op, pr(x)) for op, x in e[2]])
+    if t == "raw":
+        return e[1]
     if t == "switch":
         arms = []
         for pat, body in e[2]:
-            p = "_" if pat[0] == "pany" else (pat[1] if pat[0] == "pname" else pr(["int", pat[1]]))
+            if pat[0] == "pany":
+                p = "_"
+            elif pat[0] == "pname":
+                p = pat[1]
+            elif pat[0] == "plist1":
+                p = "[%s]" % pat[1]
+            else:
+                p = pr(["int", pat[1]])
             arms.append("case %s -> %s" % (p, pr(body)))
         return "(switch (%s) %s)" % (pr(e[1]), " ".join(arms))
     raise ValueError(t)
@@ -381,6 +393,11 @@ class Interp:
                 if pat[0] == "pname":
                     arm.vars[pat[1]] = v
                     return self.ev(body, arm)
+                if pat[0] == "plist1":
+                    if isinstance(v, list) and len(v) == 1:
+                        arm.vars[pat[1]] = v[0]
+                        return self.ev(body, arm)
+                    continue
                 if isinstance(v, int) and v == pat[1]:
                     return self.ev(body, arm)
             self.err()
@@ -451,6 +468,12 @@ class Interp:
         if name == "print":
             self.out.append(" ".join(display(v) for v in args) + "\n")
             return None
+        if name == "-":
+            if len(args) == 2:
+                return self.binop("-", args[0], args[1])
+            if len(args) == 1 and isinstance(args[0], int):
+                return -args[0]
+            raise OpaqueReached()
         if len(args) != 1:
             raise OpaqueReached()
         v = args[0]
